@@ -310,8 +310,8 @@ def scarcity (dTot prod : Ind d → Rat) (f : Ind d) : Rat :=
   if dTot f ≠ 0 then (dTot f - prod f) / dTot f else 0
 
 def alphaChg (p : Params d) (alpha dTot prod : Ind d → Rat) (f : Ind d) : Rat :=
-  (p.aMax - alpha f) * scarcity dTot prod f * p.aTau
-    + (if scarcity dTot prod f = 0 then (p.aBase - alpha f) * p.aTau else 0)
+  (if 0 < scarcity dTot prod f then (p.aMax - alpha f) * scarcity dTot prod f * p.aTau else 0)
+    + (if scarcity dTot prod f ≤ 0 then (p.aBase - alpha f) * p.aTau else 0)
 
 /-- `calc_overproduction` -/
 def overprod (p : Params d) (alpha dTot prod : Ind d → Rat) (f : Ind d) : Rat :=
